@@ -1657,6 +1657,7 @@ def corr_x(ctx, n_random):
     _late_types()
     exprs = list(X_FIXED) + [gen_xexpr(rng, 3) for _ in range(n_random)]
     # one object at several positions (12 %): the model sees the unfolded tree
+    n_plain = len(exprs)
     exprs += [rng.choice(SHARE_TEMPLATES) % gen_xexpr(rng, 2) for _ in range(max(2, n_random // 8))]
     cases = []
     boolobj = ([], [], ['(XTObj (s2p "BoolObj"))'], [])
@@ -1695,17 +1696,26 @@ def corr_x(ctx, n_random):
             except Exception as ex:
                 ctx.count("x:impl_raises:" + type(ex).__name__)
                 continue
-            if root is not None and len(root[0]) > 12000:
-                # hex of hex of ...: the string doubles at every nesting level; beyond this the non-tail-recursive list
-                # functions of the Coq side overflow the VM stack
-                ctx.count("x:skipped_serialisation_too_long_for_the_vm")
+            if idx >= n_plain and cfg and (cfg[0] or cfg[1]):
+                # a shared object that is hashable (by identity: a plain object) is served from the table at its second
+                # position, with the exclusions of the first: path-dependent exclusion + sharing is outside the table-free model
+                ctx.count("x:skipped_path_text_or_table_reuse")
+                continue
+            shared = idx >= n_plain              # one object at several positions: the id-keyed table entry of the shared
+            if shared:                           # object is overwritten by its last visit; the root is that of the unfolded tree
+                ents = None
+            if len(core.sx([root, ents])) > 8000:
+                # hex of hex of ...: the strings double at every nesting level; a generated Coq file with several such
+                # expectations overflows the stack of coqc
+                ctx.count("x:skipped_expectation_too_long_for_coqc")
                 continue
             ctx.count("x:cases:skip_config" if cfg else "x:cases:options_only")
             ctx.count("x:root_skipped" if root is None else "x:root_hashed")
             for flag, nm in ((not xo[1], "apply_hash=False"), (xo[2], "notation_e"), (xo[3], "truncate_datetime"), (xo[4], "type_groups")):
                 if flag:
                     ctx.count("x:opt:" + nm)
-            cases.append(("run_x %s %s %s" % (coq_xopts(xo), coq_cfg(cfg), to_coq_x(v)), [root, ents],
+            cases.append((("run_x_root %s %s %s" if shared else "run_x %s %s %s") % (coq_xopts(xo), coq_cfg(cfg), to_coq_x(v)),
+                          root if shared else [root, ents],
                           {"value": e, "xopts": [list(xo[0])] + list(xo[1:4]) + [[list(g) for g in xo[4]]], "skip": cfg,
                            "impl_root": (unhex(root[0])[:200], root[1]) if root and xo[1] else root}))
         # C06 on the implementation for the same value (default hasher, no skip): deep copy / rebuilt with other orders
@@ -1723,7 +1733,7 @@ def corr_x(ctx, n_random):
                 ctx.count("oracle:x:" + kind)
                 if h1 != h0 and not x_memo_alias(v):
                     ctx.fail({"kind": "x_" + kind, "opts": list(o), "value": e}, "hash of a value with date / Decimal / Path / object leaves changed by %s: %s" % (kind, e))
-    ctx.coq_cases("hash_x", HEADER_X, cases, shard=60, label="extended_model_root_count_and_table_values")
+    ctx.coq_cases("hash_x", HEADER_X, cases, shard=40, label="extended_model_root_count_and_table_values")
 
 
 def run(ctx):
